@@ -178,6 +178,8 @@ func frags() []Frag {
 		{"text-close", "%}", "%}"},
 		{"text-close", "#}", "#}"},
 		{"text-high", "\xc3\xa9\xff", "\xc3\xa9\xff"},
+		{"text-bom", "\xef\xbb\xbf", "\xef\xbb\xbf"}, // a byte order mark is three bytes of text like any other, also at the very start
+
 		{"verbatim-empty", "{% verbatim %}{% endverbatim %}", ""},
 		{"verbatim", "{% verbatim %}a{% endverbatim %}", "a"},
 		{"verbatim-var", "{% verbatim %}{{ 1 }}{% endverbatim %}", "{{ 1 }}"},
